@@ -500,13 +500,17 @@ class Plane:
                 # is stored in (a scalar amplitude would be rounded to a narrow mask
                 # type), and amplitude and phasor are at least double precision
                 inside = mask[s] != 0
-                amp = self.amplitude * inside if self.amplitude.size == 1 else self.amplitude[s] * inside
+                # (np.where rather than a product: what the arrays hold outside the
+                # mask - NaN where a measured map has no data - is not transmitted)
+                amp = np.where(inside, self.amplitude if self.amplitude.size == 1 else self.amplitude[s], 0)
                 amp = amp.astype(np.result_type(amp.dtype, np.float64), copy=False)
                 opd = self.opd if self.opd.size == 1 else self.opd[s]
                 # the phase is computed in double precision whatever the type the
                 # OPD map is stored in (a single precision map would otherwise give
                 # a single precision phasor, silently widened afterwards)
                 opd = np.asarray(opd, dtype=float)
+                if opd.ndim > 0:
+                    opd = np.where(inside, opd, 0.0)
 
                 # construct complex phasor
                 phasor = Field(data=amp*np.exp(2*np.pi*1j*opd/wavefront.wavelength),
